@@ -7,6 +7,9 @@ package c17
 
 import (
 	"fmt"
+	"runtime"
+	"strings"
+	"sync/atomic"
 	"time"
 
 	ouroboros "github.com/blinklabs-io/gouroboros"
@@ -69,9 +72,35 @@ func bounded(f func()) bool {
 	case <-done:
 		return true
 	case <-t.C:
+		lastStall.Store(stallDump())
 		return false
 	}
 }
+
+// stallDump: the gouroboros frames of all goroutines (attached to the inconclusive note of a
+// history step that did not return).
+func stallDump() string {
+	buf := make([]byte, 1<<20)
+	buf = buf[:runtime.Stack(buf, true)]
+	var out []string
+	for _, g := range strings.Split(string(buf), "\n\n") {
+		if strings.Contains(g, ").Stop(") || strings.Contains(g, "UnregisterProtocol") {
+			var fr []string
+			for _, l := range strings.Split(g, "\n") {
+				if strings.HasPrefix(l, "github.com/blinklabs-io/gouroboros") || strings.HasPrefix(l, "goroutine ") {
+					fr = append(fr, strings.TrimPrefix(l, "github.com/blinklabs-io/gouroboros/"))
+				}
+			}
+			out = append(out, strings.Join(fr, " < "))
+		}
+	}
+	if len(out) > 6 {
+		out = out[:6]
+	}
+	return strings.Join(out, " || ")
+}
+
+var lastStall atomic.Value
 
 // runHistory performs the history of pr on the established connection; it
 // returns "" when the history completed (the rig is not armed yet: its events
